@@ -142,7 +142,7 @@ def run_real_driver_pipes(tier, seed, name='real_driver_pipes', keep=lambda w: T
 
 
 def run_anymod_bounded(tier, seed):
-    """bounded validation of the assumed contract of key_transforms::is_any_modifier against the real function"""
+    """bounded validation of rewrite N4 on key_transforms::is_any_modifier: the real function (iterator adapter) against the contract proved for the rewritten loop"""
     import witness
     out = dict(name='anymod_bounded', kind='enumerative (bounded)', counts_as_proof=False)
     try:
@@ -156,7 +156,7 @@ def run_anymod_bounded(tier, seed):
     except Exception as e:
         out['undecided'] = 'probe output unreadable: %s %s' % (e, p.stderr.decode()[-300:]); return out
     out.update(exhaustive=False, evaluations=d['cases'], distinct_nontrivial=d['cases'], sample='[LEFTSHIFT, A]', wall_s=round(time.time() - t0, 2),
-               explanation='real key_transforms::is_any_modifier compared with "the list contains one of the 8 modifier keys" for every list of length <= 4 over the 8 modifiers and 2 other keys (%d lists); this backs the ASSUMED contract of that function, it is bounded and not counted as proof' % d['cases'],
+               explanation='real key_transforms::is_any_modifier compared with "the list contains one of the 8 modifier keys" for every list of length <= 4 over the 8 modifiers and 2 other keys (%d lists); the contract itself is proved by Verus on the N4-rewritten loop; this comparison backs the rewrite (iter().any -> index loop) on the real, unrewritten function; bounded, not counted as proof' % d['cases'],
                bound='list length <= 4, alphabet of 10 keys')
     out['violations'] = len(d['failures'])
     out['violation_list'] = [dict(input=f['input'], what=f['what']) for f in d['failures'][:1]]
